@@ -718,12 +718,7 @@ class Fxp():
                     val, signed, n_word, _ = utils.str2num(val, self.signed, self.n_word, None, return_sizes=True)
                     n_frac = self.n_frac
 
-                if n_frac is not None and n_frac == 0:
-                    vdtype = int
-                elif raw:
-                    vdtype = None   # raw codes parsed from strings are integers: they keep the dtype of the converted array
-                else:
-                    vdtype = float
+                vdtype = None   # the parsed numbers keep the dtype of the converted array (int or float), as for a list of strings
 
         elif isinstance(val, (list, tuple, str)):
             # if val is a str(s), convert to number(s)
@@ -756,6 +751,10 @@ class Fxp():
 
         if vdtype is None:
             vdtype = val.dtype
+            if val.dtype != object and val.size > 0 and val.dtype.itemsize < 8 and \
+                (np.issubdtype(val.dtype, np.integer) or np.issubdtype(val.dtype, np.floating)):
+                # a list / tuple of NumPy scalars of a narrow type: compute in the Python type, as for an ndarray of that dtype
+                vdtype = type(val.item(0))
         
         # scaling conversion
         self.scaled = False
